@@ -24,7 +24,8 @@ What is recognised (everything else becomes `.unknown` / `false`, which no refer
 * `extract_result`: two empty-list bindings, `deferred.addCallbacks(S.append, F.append)`, arms `F[0].raiseException()`,
   `return S[0]`, `raise DeferredNotFired(deferred)`; falling off the end is the arm `(otherwise, returnNone)`; statements that follow an
   unconditional raise inside an arm (`Failure.raiseException()` always raises) are dead code and dropped.
-* `_run_user`: `d = defer.maybeDeferred(function, *args)`, `d.addErrback(self._got_user_failure)`, `return extract_result(d)` (directly or
+* `_run_user(self, function, /, *args, **kwargs)`: `d = defer.maybeDeferred(function, *args, **kwargs)` (positional AND keyword arguments
+  passed on: `_run_cleanups` hands the keyword arguments of `addCleanup` through it; the form without `**kwargs` is `.unknown`), `d.addErrback(self._got_user_failure)`, `return extract_result(d)` (directly or
   through one local).
 Trusted: this recogniser (a bug here could make a changed source look unchanged) and that `TTV.DeferredSkel.*I` read these forms as
 Python does.
@@ -322,20 +323,21 @@ def extract_result(fn):
 
 # ---------------------------------------------------------------- _run_user
 def run_user(fn):
-    ps = [a.arg for a in fn.args.args]
+    ps = [a.arg for a in fn.args.posonlyargs + fn.args.args]      # (`function` may be positional-only)
+    kw = fn.args.kwarg.arg if fn.args.kwarg else None
     steps = []
     d = res = None
     for s in body_of(fn):
         u = ast.unparse(s)
         if isinstance(s, ast.Assign) and len(s.targets) == 1 and isinstance(s.targets[0], ast.Name):
             name, v = s.targets[0].id, ast.unparse(s.value)
-            if len(ps) == 2 and fn.args.vararg and v == 'defer.maybeDeferred(%s, *%s)' % (ps[1], fn.args.vararg.arg) and d is None:
+            if len(ps) == 2 and fn.args.vararg and kw and v == 'defer.maybeDeferred(%s, *%s, **%s)' % (ps[1], fn.args.vararg.arg, kw) and d is None:
                 d = name
                 steps.append('.maybeDeferred')
                 continue
             # `addErrback` returns the Deferred it is called on: the chained spelling is the same two steps
             if len(ps) == 2 and fn.args.vararg and d is None and \
-                    v == 'defer.maybeDeferred(%s, *%s).addErrback(self._got_user_failure)' % (ps[1], fn.args.vararg.arg):
+                    kw and v == 'defer.maybeDeferred(%s, *%s, **%s).addErrback(self._got_user_failure)' % (ps[1], fn.args.vararg.arg, kw):
                 d = name
                 steps += ['.maybeDeferred', '.addErrbackGotUserFailure']
                 continue
